@@ -111,10 +111,10 @@ def run(ctx):
     args = []
     if ctx.tier == 'quick':
         per, long_streams = 70000, [('uniform256', 300000), ('roundrobin', 300000)]
-        nshort = 56
+        nshort = 280
     else:
         per, long_streams = 60000, [(s, 1200000) for s in ('uniform256', 'roundrobin', 'zipf', 'uniform314', 'bursts', 'two', 'copies-heavy', 'one')]
-        nshort = 1900
+        nshort = 6000
     specs = [(SOURCES[i % len(SOURCES)], rnd.choice([per, per // 2, per + 777])) for i in range(nshort)]
     # tiny directed streams: every literal and every copy length as the very first symbol (code of the initial tree)
     tiny = [('uniform314', n) for n in (1, 2, 3, 12, 313, 314, 700)] * 2
